@@ -371,6 +371,9 @@ theorem b2Step_inv (P : B2Par) (hP : B2ParOK P) (s : B2Sys) (e : B2Event) (hinv 
     exact { rsp := hinv.rsp, func := hinv.func, srv := (by intro x hx; cases hx), cli := hinv.cli, outs := hinv.outs }
   | cliExpire =>
     exact { rsp := hinv.rsp, func := hinv.func, srv := hinv.srv, cli := (by intro c hc; cases hc), outs := hinv.outs }
+  | cliNew =>
+    exact { rsp := hinv.rsp, func := hinv.func, srv := hinv.srv,
+            cli := (by intro c hc hi; cases hc; cases hi), outs := hinv.outs }
 
 theorem b2Run_inv (P : B2Par) (hP : B2ParOK P) : ∀ (evs : List B2Event) (s : B2Sys), B2Inv P s →
     B2Inv P (evs.foldl (b2Step P) s)
